@@ -424,7 +424,10 @@ impl Engine for E2U {
         let root = Rng::new(seed);
         let mut w = root.fork("world");
         let mut cfg = WorldCfg::exchange(false);
-        if tier == Tier::Thorough {
+        if crate::common::long_run(seed, tier) {
+            cfg.n_min = 50;
+            cfg.n_max = 300;
+        } else if tier == Tier::Thorough {
             cfg.n_max = 40;
         }
         let single = w.one_in(3);
@@ -433,7 +436,7 @@ impl Engine for E2U {
         let names = ["fake", "d2", "RANDOM"];
         let datasets: Vec<DatasetSpec> = (0..nds).map(|i| gen_dataset(&mut w, names[i], &cfg, &mut st)).collect();
         let mut c = root.fork("cfg");
-        let max_ops = if tier == Tier::Thorough { c.range(20, 300) as usize } else { c.range(10, 60) as usize };
+        let max_ops = if crate::common::long_run(seed, tier) { if tier == Tier::Thorough { c.range(300, 1200) as usize } else { c.range(200, 500) as usize } } else if tier == Tier::Thorough { c.range(20, 300) as usize } else { c.range(10, 60) as usize };
         let weights: [u32; 6] = [*c.pick(&[30, 45]), *c.pick(&[5, 10]), *c.pick(&[20, 30]), *c.pick(&[5, 10]), *c.pick(&[2, 5]), *c.pick(&[3, 8])];
         let bogus_p = *c.pick(&[0.02, 0.05, 0.15]);
         let edge_p = *c.pick(&[0.0, 0.1, 0.4]);
@@ -743,7 +746,10 @@ impl Engine for E2J {
         let root = Rng::new(seed);
         let mut w = root.fork("world");
         let mut cfg = WorldCfg::exchange(true);
-        if tier == Tier::Thorough {
+        if crate::common::long_run(seed, tier) {
+            cfg.n_min = 50;
+            cfg.n_max = 300;
+        } else if tier == Tier::Thorough {
             cfg.n_max = 40;
         }
         let single = w.one_in(3);
@@ -752,7 +758,7 @@ impl Engine for E2J {
         let names = ["fake", "d2", "RANDOM"];
         let datasets: Vec<DatasetSpec> = (0..nds).map(|i| gen_dataset(&mut w, names[i], &cfg, &mut st)).collect();
         let mut c = root.fork("cfg");
-        let max_ops = if tier == Tier::Thorough { c.range(20, 300) as usize } else { c.range(10, 60) as usize };
+        let max_ops = if crate::common::long_run(seed, tier) { if tier == Tier::Thorough { c.range(300, 1200) as usize } else { c.range(200, 500) as usize } } else if tier == Tier::Thorough { c.range(20, 300) as usize } else { c.range(10, 60) as usize };
         let weights: [u32; 6] = [*c.pick(&[30, 45]), *c.pick(&[5, 10]), *c.pick(&[20, 30]), *c.pick(&[5, 10]), *c.pick(&[2, 5]), 0];
         let bogus_p = *c.pick(&[0.02, 0.05, 0.15]);
         let edge_p = *c.pick(&[0.0, 0.1, 0.4]);
